@@ -648,6 +648,12 @@ func (fx *fexec) typeAssert(x *ssa.TypeAssert, st *State) Val {
 	if _, isIface := at.Underlying().(*types.Interface); isIface {
 		// whether a dynamic type implements an interface is a function of the type alone
 		ok = and(not(eq(v.T, intLit(0))), vc.implementsTerm(v.T, at))
+		if _, isI := vc.resolve(x.X.Type()).Underlying().(*types.Interface); isI {
+			if ai, isAI := at.Underlying().(*types.Interface); isAI && types.Implements(vc.resolve(x.X.Type()), ai) {
+				// the static interface type already has every method asked for: only nil fails
+				ok = not(eq(v.T, intLit(0)))
+			}
+		}
 		val = Val{Ty: at, T: v.T}
 		vc.note("interface-to-interface assertion: satisfaction is an uninterpreted function of the dynamic type")
 	} else {
